@@ -506,6 +506,7 @@ static void log_opt_values(cfg_opt_t *o)
 
 static int dump_values_only;
 static int getter_monitor = 1;
+static int sticky_errno;
 
 static void dump_opt(cfg_opt_t *o, int depth)
 {
@@ -672,7 +673,7 @@ static void run_op(char **t, int nt)
 	if (!strcmp(op, "case")) {
 		NEED(2);
 		cur_case = atol(t[1]);
-		cbcount = 0; failat = 0; v2mode = 0; next_tok = 0; tokens_out = 0; pff_log = 0; getter_monitor = 1;
+		cbcount = 0; failat = 0; v2mode = 0; next_tok = 0; tokens_out = 0; pff_log = 0; getter_monitor = 1; sticky_errno = 0;
 		vm_set_oom(0);
 		errno = 0;
 		base_fds = fd_count();
@@ -955,7 +956,7 @@ static void run_op(char **t, int nt)
 		logret(op, v ? 0 : -1);
 		return;
 	}
-	if (!strcmp(op, "set_errno")) { NEED(2); errno = atoi(t[1]); return; }
+	if (!strcmp(op, "set_errno")) { NEED(2); errno = atoi(t[1]); sticky_errno = errno; return; }	/* also re-applied right before the next by-path look-up */
 	/* ---- parse_buf with a chosen errno right before the call */
 	if (!strcmp(op, "parse_buf_errno")) {
 		char *s; int rc;
@@ -1047,6 +1048,7 @@ static void run_op(char **t, int nt)
 		NEED(3); LOC(1);
 		cid = atoi(t[1]);
 		path = sdec(t[2], NULL);
+		if (sticky_errno) { errno = sticky_errno; sticky_errno = 0; }
 		if (op[3] == 'o') {
 			cfg_opt_t *o = cfg_getopt(loc_cfg, path);
 			fprintf(LOG, "{\"ev\":\"look\",\"op\":\"getopt\",\"pos\":");
